@@ -20,7 +20,10 @@ import (
 func Role() string {
 	buf := make([]byte, 8192)
 	n := runtime.Stack(buf, false)
-	s := string(buf[:n])
+	return roleOfStack(string(buf[:n]))
+}
+
+func roleOfStack(s string) string {
 	switch {
 	case strings.Contains(s, ").mergerLoop"):
 		return "merger"
@@ -62,6 +65,8 @@ type Point struct {
 	Role string
 	Kind string
 	ID   uint64
+	// Stack is the goroutine's stack text; filled only for points of the yield-instrumented build
+	Stack string `json:"-"`
 }
 
 // Fault decides whether a directory operation fails. Returning a non-nil FaultSpec
@@ -261,6 +266,7 @@ type teeWriterTo struct {
 	limit int // >= 0: fail after this many bytes
 	full  bool
 	err   error
+	fired bool // the failing Write was really handed to the item writer
 }
 
 type limitWriter struct {
@@ -274,6 +280,7 @@ func (l *limitWriter) Write(b []byte) (int, error) {
 		n, _ := l.w.Write(b[:l.left])
 		l.t.tee.Write(b[:n])
 		l.left = 0
+		l.t.fired = true
 		return n, l.t.err
 	}
 	n, err := l.w.Write(b)
@@ -290,11 +297,12 @@ func (t *teeWriterTo) WriteTo(w io.Writer, closeCh chan struct{}) (int64, error)
 	if err == nil && t.full {
 		return n, t.err
 	}
-	if err == nil && t.limit >= 0 && t.err != nil {
-		// the item was shorter than the limit, or the writer swallowed the write error:
-		// the injected fault still makes this persist fail
+	if err == nil && t.limit >= 0 && t.err != nil && !t.fired {
+		// the item was shorter than the limit, no Write failed: the injected fault still makes this persist fail
 		return n, t.err
 	}
+	// (if a Write did fail and the item writer returns nil all the same, that is passed on faithfully:
+	// the directory then reports success for a truncated file, RDir.Persist marks it in the trace)
 	return n, err
 }
 
@@ -359,6 +367,10 @@ func (r *RDir) Persist(kind string, id uint64, w index.WriterTo, closeCh chan st
 		}
 	}
 	r.add(e)
+	if tw.fired && err == nil {
+		// a Write into the file failed and the persist reported success
+		r.add(&Ev{Role: role, Op: "mark", Tag: "write-error-swallowed", Kind: kind, ID: id, N: len(tw.tee.Bytes())})
+	}
 	if r.Observe != nil {
 		r.Observe(e)
 	}
